@@ -122,7 +122,9 @@ class Exchange:
         return lc.response(replace_instruction_reports=reps)
 
     def update_orders(self, market_id, instructions, **kw):
-        return lc.response(update_instruction_reports=[lc.update_report("SUCCESS") for _ in instructions])
+        # (a bet that is no longer executable cannot be updated)
+        return lc.response(update_instruction_reports=[lc.update_report("SUCCESS") if self.bets[ins["betId"]]["status"] == "EXECUTABLE"
+                                                       else lc.update_report("FAILURE", "BET_TAKEN_OR_LAPSED") for ins in instructions])
 
     # --- exchange side events
     def fill(self, bid, amount):
@@ -142,13 +144,14 @@ class Exchange:
 
     def snapshot(self):
         self.published = self.state()
+        self.published_complete = getattr(self, "published_complete", set()) | set(b["bet_id"] for b in self.bets.values() if b["status"] == "EXECUTION_COMPLETE")
         return [cm.current_order(b["ref"], b["bet_id"], selection_id=b["selection_id"], handicap=b["handicap"], side=b["side"], price=b["price"],
                                  size=b["size"], status=b["status"], size_matched=b["matched"], size_remaining=self.remaining(b),
                                  average_price_matched=b["price"] if b["matched"] else 0.0, size_cancelled=b["cancelled"], size_lapsed=b["lapsed"])
                 for b in self.bets.values()]
 
 
-ACTIONS = ["request-cancel", "request-partial-cancel", "request-replace", "deliver-response", "exchange-fill", "exchange-partial-fill", "exchange-lapse",
+ACTIONS = ["request-cancel", "request-partial-cancel", "request-replace", "request-update", "deliver-response", "exchange-fill", "exchange-partial-fill", "exchange-lapse",
            "snapshot", "stale-snapshot"]
 
 
@@ -215,7 +218,7 @@ def h11a(c, K=3, async_place=False, on_world=None, epilogue_fill=False):
             live_local = [x for x in market.blotter if x.status == S.EXECUTABLE and x.bet_id]
             open_bets = [b for b in ex.bets.values() if b["status"] == "EXECUTABLE"]
             with c.guard("step%d:%s" % (k, act)):
-                if act in ("request-cancel", "request-partial-cancel", "request-replace"):
+                if act in ("request-cancel", "request-partial-cancel", "request-replace", "request-update"):
                     if not live_local:
                         continue
                     x = live_local[0]
@@ -226,6 +229,8 @@ def h11a(c, K=3, async_place=False, on_world=None, epilogue_fill=False):
                         if x.size_remaining <= red:
                             continue
                         market.cancel_order(x, red, force=True)
+                    elif act == "request-update":
+                        market.update_order(x, "PERSIST" if x.order_type.persistence_type != "PERSIST" else "LAPSE", force=True)
                     else:
                         market.replace_order(x, [3.0, 3.05, 3.1, 3.15, 3.2][k], force=True)
                     c.cover("request")
@@ -266,6 +271,11 @@ def h11a(c, K=3, async_place=False, on_world=None, epilogue_fill=False):
         _agree(c, fl, ex, market, strategy, "quiescent")
         if len(ex.bets) > 1:
             c.cover("replaced-bet")
+        # what the stream reported complete (and flumine processed) is not live afterwards
+        for o_ in market.blotter:
+            if o_.bet_id in getattr(ex, "published_complete", set()):
+                c.ob("quiescent.reported-complete-by-the-stream=>not-live-afterwards", o_.status not in lc.LIVE_STATUS, status=o_.status.name, bet_id=o_.bet_id,
+                     replacement_bet=(o_.bet_id != min(ex.bets)))
         if epilogue_fill:
             # epilogue (C03 finality): whatever still rests at the exchange is now matched and published
             with c.guard("epilogue"):
